@@ -184,6 +184,12 @@ def main(argv):
                            "identity": (lambda b: b, lambda b: b)}.items():
         for thr in (0, 1, 10, 400):
             serdes.append((f"compressed-{name}-{thr}", serde.CompressedSerde(compress=cz, decompress=dz, min_compress_len=thr)))
+    # the serializers as most applications use them: built with their default arguments, and the ready-made module-level instances
+    serdes.append(("compressed-default-10", serde.CompressedSerde(min_compress_len=10)))
+    serdes.append(("compressed-default-400", serde.CompressedSerde()))
+    serdes.append(("compressed-module-instance-400", serde.compressed_serde))
+    serdes.append(("pickle-module-instance", serde.pickle_serde))
+
     class Custom:
         def serialize(self, key, value):
             return repr(value).encode(), 77
@@ -241,6 +247,62 @@ def main(argv):
                 continue
             if r1 is not True or got != o or type(got) is not type(o) or gm != {"k": o}:
                 ctx.violation("value did not come back equal and of the same type", dict(case, got=ascii(got)[:60], got_type=type(got).__name__), tags=["serde:" + sname.split("-")[0]])
+    # 3c. every way of storing through a serializer (the flags the serializer chose must travel with the item whichever verb carried it: add, replace,
+    #     cas after gets, append-less), and values that are LARGE before compression but small after it (the item limit applies to what is stored)
+    big = [b"\x00" * ((1 << 20) + 1), bytes(range(256)) * 12289, "a" * 1_400_000, list(range(150_000)), {"blob": b"z" * (2 << 20), "n": 1}]
+    verb_objs = ["text \u20ac", 0, -12, 10 ** 30, {"k": [1, 2]}, None, True, 1.5, b"raw", b"r" * 3000, "t" * 3000, (1, "x"), IntSub(5)]
+    for sname, sd in serdes:
+        if sname == "custom":
+            continue
+        for verb in ("add", "replace", "cas", "set_many", "prepend-free"):
+            if not ctx.thorough and sname.startswith("compressed") and not sname.endswith(("-10", "-0")):
+                continue
+            if "module-instance" in sname:
+                continue
+            for oi, o in enumerate(verb_objs):
+                if verb == "prepend-free":
+                    continue
+                srv, world, c = mk(serde_obj=sd, pfx=b"s:", mode="one" if oi % 2 else "rand")
+                ctx.case(("serde-verb", sname, verb, oi))
+                ctx.count("serde-verb:" + verb)
+                case = {"serde": sname, "stored_with": verb, "value": repr(o)[:60], "type": type(o).__name__}
+                try:
+                    if verb == "add":
+                        r1 = c.add("k", o, noreply=False)
+                    elif verb == "replace":
+                        c.set("k", b"old", noreply=False)
+                        r1 = c.replace("k", o, noreply=False)
+                    elif verb == "cas":
+                        c.set("k", b"old", noreply=False)
+                        _, tok_ = c.gets("k")
+                        r1 = c.cas("k", o, tok_) if oi % 2 else c.cas("k", o, tok_, noreply=False)
+                    else:
+                        r1 = c.set_many({"k": o, "j": b"other"}, noreply=False) == []
+                    got = c.get("k")
+                    gm = c.gets_many(["k"])
+                except Exception as e:
+                    ctx.violation("store/fetch through the serializer raised", dict(case, error=repr(e)[:120]), tags=["serde:" + sname.split("-")[0], "serde-verb"])
+                    continue
+                if r1 is not True or got != o or type(got) is not type(o) or set(gm) != {"k"} or gm["k"][0] != o or type(gm["k"][0]) is not type(o):
+                    ctx.violation("value did not come back equal and of the same type", dict(case, store_result=repr(r1), got=repr(got)[:60], got_type=type(got).__name__),
+                                  tags=["serde:" + sname.split("-")[0], "serde-verb"])
+        if sname in ("pickle%d" % pickle.HIGHEST_PROTOCOL, "pickle0", "compressed-zlib-10", "compressed-zlib-400", "compressed-default-10", "compressed-module-instance-400") or (ctx.thorough and sname.startswith("compressed") and sname.endswith("-10")):
+            for oi, o in enumerate(big):
+                if sname == "pickle0" and oi != 3:
+                    continue
+                srv, world, c = mk(serde_obj=sd, pfx=b"s:", mode="one")
+                ctx.case(("serde-big", sname, oi))
+                ctx.count("serde-big-values")
+                case = {"serde": sname, "value": f"{type(o).__name__} of len {len(o)}", "type": type(o).__name__}
+                try:
+                    r1 = c.set("k", o, noreply=False)
+                    got = c.get("k")
+                except Exception as e:
+                    ctx.violation("store/fetch through the serializer raised", dict(case, error=repr(e)[:120]), tags=["serde:" + sname.split("-")[0], "big-value"])
+                    continue
+                if r1 is not True or type(got) is not type(o) or got != o:
+                    ctx.violation("value did not come back equal and of the same type", dict(case, got=f"{type(got).__name__}" + (f" of len {len(got)}" if hasattr(got, "__len__") else "")),
+                                  tags=["serde:" + sname.split("-")[0], "big-value"])
     # 3b. one set_many with values of DIFFERENT kinds (every item carries its own serializer flags), in several orders, fetched back one by one
     #     and together
     mixed = [("i", 7), ("b", b"raw bytes"), ("t", "text \u00e9"), ("d", {"k": [1, 2]}), ("z", 0), ("e", b""), ("n", None), ("f", 1.5), ("big", 10 ** 30)]
